@@ -318,6 +318,11 @@ func s2CheckFailure(prop string, g *s2cfg, l *s2Launch, k0 *kproc, files map[int
 	if mustFail {
 		return vcore.Violate(prop, "failure_reported_as_success", site, "%s: Start returned pid %d, nil", what, l.pid)
 	}
+	if g.syncMode == 1 && !l.syncWritten {
+		// with a callback configured, success means the child reached the sync point and was approved there;
+		// a child that never announced itself (it died, or its message was lost) cannot have been approved
+		return vcore.Violate(prop, "failure_reported_as_success", "child_never_at_sync_point", "%s: Start returned pid %d, nil and ran the callback %d time(s) although the child never reached the sync point", what, l.pid, l.cbCalls)
+	}
 	if l.snap != nil {
 		if v := s2CheckState(prop, g, k0, files, l, true, true); v != nil {
 			v.Kind = "ran_despite_failed_step"
